@@ -221,13 +221,17 @@ func pureExec(t []string) (string, string) {
 				o[i] = sa[i] != sb[i]
 			}
 		}
+		other := &b
+		if t[1] == t[2] {
+			other = &a // the same operand on both sides: the same object, as in m.Xor(&m)
+		}
 		switch t[0] {
 		case "and":
-			r = a.And(&b)
+			r = a.And(other)
 		case "or":
-			r = a.Or(&b)
+			r = a.Or(other)
 		default:
-			r = a.Xor(&b)
+			r = a.Xor(other)
 		}
 		return members(&r), setStr(o)
 	case "contains", "containsany":
@@ -241,10 +245,14 @@ func pureExec(t []string) (string, string) {
 				all = false
 			}
 		}
-		if t[0] == "contains" {
-			return b01(a.Contains(&b)), b01(all)
+		other := &b
+		if t[1] == t[2] {
+			other = &a
 		}
-		return b01(a.ContainsAny(&b)), b01(any)
+		if t[0] == "contains" {
+			return b01(a.Contains(other)), b01(all)
+		}
+		return b01(a.ContainsAny(other)), b01(any)
 	case "iszero":
 		m := ecs.All(parseIDs(t[1])...)
 		return b01(m.IsZero()), b01(len(parseSet(t[1])) == 0)
@@ -261,13 +269,13 @@ func pureExec(t []string) (string, string) {
 	case "matches":
 		f, o, rest := parseFilter(t[2:])
 		if f == nil || len(rest) != 0 {
-			return "bad-op", ""
+			return "bad-op", "-"
 		}
 		m := ecs.All(parseIDs(t[1])...)
 		return b01(f.Matches(&m)), b01(o(parseSet(t[1])))
 	case "subscription":
 		b := func(s string) bool { return s == "1" }
-		return strconv.Itoa(int(ecs.VerifSubscription(b(t[1]), b(t[2]), b(t[3]), b(t[4]), b(t[5]), b(t[6])))), ""
+		return strconv.Itoa(int(ecs.VerifSubscription(b(t[1]), b(t[2]), b(t[3]), b(t[4]), b(t[5]), b(t[6])))), "-" // no independent oracle: compared with the regenerated definition only
 	case "subscribes", "lsubscribes":
 		tr, _ := strconv.Atoi(t[1])
 		var r bool
@@ -292,9 +300,9 @@ func pureExec(t []string) (string, string) {
 	case "capacityu32":
 		a, _ := strconv.ParseUint(t[1], 10, 32)
 		b, _ := strconv.ParseUint(t[2], 10, 32)
-		return strconv.FormatUint(uint64(ecs.VerifCapacityU32(uint32(a), uint32(b))), 10), ""
+		return strconv.FormatUint(uint64(ecs.VerifCapacityU32(uint32(a), uint32(b))), 10), "-"
 	}
-	return "bad-op", ""
+	return "bad-op", "-"
 }
 
 // selectOracle: the documented selection rule of C12.
@@ -424,8 +432,14 @@ func pureGen(seed uint64, n int, w io.Writer) {
 		case 2:
 			fmt.Fprintf(w, "not %s\n", a)
 		case 3:
+			if r.chance(15) {
+				b = a // identical operands (the runner then passes the same object twice)
+			}
 			fmt.Fprintf(w, "%s %s %s\n", pick(r, []string{"and", "or", "xor"}), a, b)
 		case 4:
+			if r.chance(15) {
+				b = a
+			}
 			fmt.Fprintf(w, "%s %s %s\n", pick(r, []string{"contains", "containsany"}), a, b)
 		case 5:
 			fmt.Fprintf(w, "iszero %s\nreset %s\ntotal %s\nall %s\n", a, a, a, a)
